@@ -119,30 +119,68 @@ class Taint:
         return out
 
 
-def origin_calls(b, operand, depth=0, seen=None):
-    """The set of defining events a value can come from, following copies, references and locals
-    with several definitions: each element is a Call or the string 'other'."""
+def origins(b, operand, depth=0, seen=None):
+    """The defining events a value can come from, following copies, references, locals with several
+    definitions and enum / tuple aggregates that are taken apart again (`Some(x)` ... `(v as
+    Some).0`): a set of Call objects, ('proj', Call, projection) for a part of a call result, or
+    'other'."""
     if seen is None:
         seen = set()
-    out = set()
     if operand.get('k') not in ('copy', 'move'):
         return {'other'}
-    l = operand['place']['l']
-    if l in seen or depth > 12:
+    return _origins(b, operand['place']['l'], [e for e in operand['place']['p'] if e != 'deref'], depth, seen)
+
+
+def _origins(b, l, projs, depth, seen):
+    out = set()
+    key = (l, len(projs))
+    if key in seen or depth > 14:
         return out
-    seen.add(l)
+    seen.add(key)
+    if 1 <= l <= b.arg_count and not [d for d in b.defs.get(l, []) if d[1] == 'call' or not d[2]['lhs']['p']]:
+        return {('arg', l)}
     ds = [d for d in b.defs.get(l, []) if d[1] == 'call' or not d[2]['lhs']['p']]
     if not ds:
         return {'other'}
     for d in ds:
         if d[1] == 'call':
-            out.add(b.call_at(d[0]))
+            c = b.call_at(d[0])
+            out.add(c if not projs else ('proj', c, tuple(str(e.get('downcast', e.get('f'))) if isinstance(e, dict)
+                                                           else str(e) for e in projs)))
             continue
         rv = d[2]['rv']
-        if rv['k'] == 'use' and rv['op'].get('k') in ('copy', 'move'):
-            out |= origin_calls(b, rv['op'], depth + 1, seen)
+        if rv['k'] in ('use', 'cast') and rv['op'].get('k') in ('copy', 'move'):
+            pl = rv['op']['place']
+            out |= _origins(b, pl['l'], [e for e in pl['p'] if e != 'deref'] + projs, depth + 1, seen)
         elif rv['k'] == 'ref':
-            out |= origin_calls(b, {'k': 'copy', 'place': rv['place']}, depth + 1, seen)
+            pl = rv['place']
+            out |= _origins(b, pl['l'], [e for e in pl['p'] if e != 'deref'] + projs, depth + 1, seen)
+        elif rv['k'] == 'agg' and rv.get('agg') == 'adt' and projs and isinstance(projs[0], dict) \
+                and 'downcast' in projs[0]:
+            if projs[0]['downcast'] != rv.get('variant'):
+                continue      # the other variant: this definition cannot be the one taken apart
+            if len(projs) >= 2 and isinstance(projs[1], dict) and 'f' in projs[1] and projs[1]['f'] < len(rv['ops']):
+                o = rv['ops'][projs[1]['f']]
+                if o.get('k') in ('copy', 'move'):
+                    out |= _origins(b, o['place']['l'], [e for e in o['place']['p'] if e != 'deref'] + projs[2:],
+                                    depth + 1, seen)
+                else:
+                    out.add('other')
+            else:
+                out.add('other')
+        elif rv['k'] == 'agg' and rv.get('agg') in ('tuple', 'adt') and projs and isinstance(projs[0], dict) \
+                and 'f' in projs[0] and projs[0]['f'] < len(rv['ops']):
+            o = rv['ops'][projs[0]['f']]
+            if o.get('k') in ('copy', 'move'):
+                out |= _origins(b, o['place']['l'], [e for e in o['place']['p'] if e != 'deref'] + projs[1:],
+                                depth + 1, seen)
+            else:
+                out.add('other')
         else:
             out.add('other')
     return out
+
+
+def origin_calls(b, operand):
+    """origins() restricted to whole call results; anything else is 'other'"""
+    return set(o if not isinstance(o, tuple) and o != 'other' else 'other' for o in origins(b, operand))
